@@ -35,17 +35,17 @@ structure Gen (V : Type) where
   kind : GenKind
   calls : Nat                      -- values produced so far (position in the stream)
   last : Option V                  -- _Dynamic_last   (None = placeholder)
-  lastTime : Int                   -- _Dynamic_time
-  saved : List (Option V × Int)
+  lastTime : Option Int            -- _Dynamic_time; none = the marker `_NO_TIME`, unequal to every time
+  saved : List (Option V × Option Int)
   deriving DecidableEq, Repr
 
 /-- src: param/parameters.py Dynamic._initialize_generator -/
 def Gen.fresh {V} (k : GenKind) : Gen V :=
-  { kind := k, calls := 0, last := none, lastTime := -1, saved := [] }
+  { kind := k, calls := 0, last := none, lastTime := none, saved := [] }
 
 /-- src: param/parameters.py Dynamic._initialize_generator (on an existing callable) -/
 def Gen.reinit {V} (g : Gen V) : Gen V :=
-  { g with last := none, lastTime := -1, saved := [] }
+  { g with last := none, lastTime := none, saved := [] }
 
 /-- what `Parameter.__get__` finds: a plain value, a generator of the heap, or (instances only)
 nothing in the instance dictionary, i.e. the class default -/
@@ -152,9 +152,9 @@ def produceValue (env : Env H V) (dynTD : Bool) (now : Int) (g : Gen V) (force :
     -- (time_fn is None) or (not self.time_dependent)
     let r := g.produce env now
     (some r.1, { r.2 with last := some r.1 })
-  else if force || now != g.lastTime then
+  else if force || some now != g.lastTime then
     let r := g.produce env now
-    (some r.1, { r.2 with last := some r.1, lastTime := now })
+    (some r.1, { r.2 with last := some r.1, lastTime := some now })
   else
     (g.last, g)
 
@@ -355,12 +355,12 @@ structure Ev (V : Type) where
   tag : String
   res : Res V
   clock : Snap
-  caches : List (Option V × Int × Nat)     -- per generator: last, lastTime, len(saved)
+  caches : List (Option V × Option Int × Nat)     -- per generator: last, lastTime, len(saved)
   touched : Option Touched                  -- read / inspect / force of a dynamic value
   gens : List Nat                           -- push / pop: the generators visited
   deriving Repr
 
-def cachesOf (w : World V) : List (Option V × Int × Nat) :=
+def cachesOf (w : World V) : List (Option V × Option Int × Nat) :=
   w.gens.map fun g => (g.last, g.lastTime, g.saved.length)
 
 def touchedOf (w : World V) : Op → Option Touched
